@@ -72,7 +72,7 @@ theorem frameLatin1_buildFrame (s : Session) (st : String) (m : Msg) (k : Int)
   have hf : (m.tags.filter ownTag).all (fun p => isLatin1 p.2) = true := by
     rw [List.all_eq_true] at htags ⊢
     intro p hp; exact htags p (List.mem_filter.mp hp).1
-  simp only [List.all_append, List.all_cons, List.all_nil, Bool.and_true, hb, isLatin1_natRepr, hm, hs,
+  simp only [List.all_append, List.all_cons, List.all_nil, hb, isLatin1_natRepr, hm, hs,
     ht, isLatin1_pyStr k hk, hst, hf, isLatin1_pad3, Bool.and_self]
 
 /-- a frame `Codec.encode` made is a well-formed journal row under its number -/
@@ -151,7 +151,7 @@ theorem sendMsg_keep (env : Env) (m : Msg) (c : Conn) (k : Int) (v : String)
   unfold sendCore
   simp only [M.bind_apply, M.get_apply, hty, Bool.false_and, Bool.false_eq_true, if_false, hseq, hlat,
     Bool.not_true, Journal.persist, Rows.insert_append k _ _ hlt, Option.map_some, M.modify_apply, hsock,
-    M.emit_apply, List.nil_append, List.append_nil]
+    M.emit_apply, List.nil_append]
   simp [withOut, hsock]
 
 end AsyncFix.Session.C06
